@@ -512,19 +512,34 @@ func ruleSucceeded(rule string) func(*Ctx) {
 		// every exported Execute* reads the flag only after executeInternal
 		for _, name := range []string{"(clipperBase).execute", "(clipper64).ExecutePolyTree64", "(clipperD).ExecutePolyTreeD"} {
 			g := c.fn(name)
-			eis := callsTo(c, g, "(clipperBase).executeInternal")
-			bad := ""
-			if len(eis) != 1 {
-				bad = "expected exactly one executeInternal call"
-			} else {
-				for _, b := range g.Blocks {
-					for _, in := range b.Instrs {
-						if u, ok := in.(*ssa.UnOp); ok && isFieldLoadOf(u, "clipperBase", "succeeded") && !precedes(eis[0], u) {
-							bad = "c.succeeded is read before executeInternal ran"
+			// the run may sit in a helper the reference record does not know (executeTree): the same holds there,
+			// and in g the flag is read only after the call to that helper
+			var readAfterRun func(g *ssa.Function, depth int) string
+			readAfterRun = func(g *ssa.Function, depth int) string {
+				eis := callsTo(c, g, "(clipperBase).executeInternal")
+				if len(eis) == 0 && depth < 2 {
+					for _, ci := range calls(g) {
+						if h := ci.Common().StaticCallee(); h != nil && c.freshFunc(h) && fnWithCallsTo(c, h, "(clipperBase).executeInternal", 0) != nil {
+							if b := readAfterRun(h, depth+1); b != "" {
+								return b
+							}
+							eis = append(eis, ci)
 						}
 					}
 				}
+				if len(eis) != 1 {
+					return "expected exactly one executeInternal call"
+				}
+				for _, b := range g.Blocks {
+					for _, in := range b.Instrs {
+						if u, ok := in.(*ssa.UnOp); ok && isFieldLoadOf(u, "clipperBase", "succeeded") && !precedes(eis[0], u) {
+							return "c.succeeded is read before executeInternal ran"
+						}
+					}
+				}
+				return ""
 			}
+			bad := readAfterRun(g, 0)
 			c.check(bad == "", rule, fmt.Sprintf("%s:%s:read-after-run", rule, name), g.Pos(), name, "the success flag is read only after executeInternal", bad, "a flag read before the run is the previous run's")
 		}
 	}
